@@ -254,7 +254,7 @@ def run_units(unit_ids, repo, scratch, tier, pid):
             if pr['verdict'] == 'SUCCESSFUL':
                 continue
             if pr['timeout'] or pr['nfailed'] is None:
-                reasons.append('%s: CBMC timeout / resource limit (%ss)' % (short, htimeout))
+                reasons.append('%s: CBMC %s' % (short, ('timeout (%ss)' % htimeout) if pr['timeout'] else 'stopped (memory cap / solver crash): ' + ' '.join(pr['text'].split())[:80]))
                 continue
             # a definite failure: re-run alone in regular format for check-level details
             r2 = run_kani(os.path.join(work, 'guard'), [h], target, htimeout * 2 + 300, jobs=None, harness_timeout=htimeout)
